@@ -192,6 +192,9 @@ for _p in ("C09", "C10"):
 for _fn in ("print_lambda_expr", "print_record_expr", "print_macro_expansion"):
     fixed("F77", "C14", "ff0d6b2", "C14.skipped-trivia|skip|%s|Comma|guarded" % _fn, "`{a = 1.0, /* c */ b = 2.0}`, `|x, /* c */ y| ..`, `m!(a, /* c */ b)`: the guarded `Comma if in_..` arm of %s swallowed the comma without reading its trivia; the comment was lost" % _fn)
 
+# ---- F78 (reported by a seeding agent as a pristine oddity; the loop classifier of C15.hash was refined until it derives it)
+fixed("F78", "C15", "6f307f1", "C15.hash|iter|compiler::typing::InferContext::register_type_declarations|HashMap|for-insert-foreign-key", "`type A = Foo | Bar  type B = Foo | Baz  fn dsp(){ match Foo { Foo => 1.0, Bar => 2.0 } }`: the type declarations were visited in HashMap order and each constructor name inserted into one map, so which type `Foo` belonged to changed from run to run: 4 of 8 runs printed 1.0, the others rejected the match as not exhaustive (findings/repro/F78_shared_constructor_name.mmm)")
+
 
 def main():
     extra = os.path.join(HERE, "tools", "findings_more.py")
